@@ -637,11 +637,15 @@ the state the handlers run on; `HostR` / `completeAllR` is the executable compos
 nested rounds) the correspondence driver runs.  `Browser.detachesCode` is what the translator reads off the code (D24b repair: the
 pending changes are detached before they are fired). -/
 
-/-- **C06 / C04 (a browser's completion delivers each pending change exactly once, whatever its handlers do).**  With the pending
-changes detached before they are fired (the code since the D24b repair), for every state `σ` the handlers run on, every way `get` /
-`set` locate this browser's `_pending_handlers` in it and every non-raising `fire` — in particular one whose handlers re-enter the
-record manager and have this very browser notified and completed again —: the changes the loop hands to `fire` are exactly the ones
-pending when it started, each once, in order; the loop does not raise. -/
+/-- **C06 / C04 (what the OUTER completion loop hands to `fire`).**  With the pending changes detached before they are fired (the code
+since the D24b repair), for every state `σ` the handlers run on, every `get` / `set` (no lens law is assumed or needed: after the
+detach the loop never reads `σ`'s pending changes again) and every non-raising `fire`: the changes **this run of the loop** hands to
+`fire` are exactly the ones pending when it started, each once, in order, and the loop does not raise — whatever `fire` does to the
+state, e.g. handlers that re-enter the record manager and have this very browser notified and completed again.
+What this does **not** say: that no change is delivered a second time by such a *nested* completion (`tracedFire` counts the outer
+loop's hand-overs only; a nested run fires whatever the nested update round queued — on the composite that is decided by stage C/O
+against `completeAllR`, see siblings S1/S5/S6), nor alternation / live = cache for the composite (not proved; `C04_alternates` is about
+`browserRunFrom`). -/
 theorem C06_completion_detached_once {σ : Type} (get : σ → PendingCh) (set : σ → PendingCh → σ)
     (fire : σ → ((String × String) × Change) → σ × Option PyExc) (hfire : ∀ s ev, (fire s ev).2 = none) (s : σ) :
     Browser.detachesCode = true
